@@ -7,12 +7,29 @@ import (
 	"strings"
 
 	sdk "github.com/cosmos/cosmos-sdk/types"
+
+	opchildtypes "github.com/initia-labs/OPinit/x/opchild/types"
+	ophosttypes "github.com/initia-labs/OPinit/x/ophost/types"
 )
+
+// c06BInfo builds a MsgSetBridgeInfo payload (and its model description).
+func c06BInfo(e *L2Env, id uint64, addr, chain, client string, cfgOK bool) *BInfo {
+	cfg := ophosttypes.BridgeConfig{Challenger: e.User(5).Str, Proposer: e.User(6).Str,
+		BatchInfo:          ophosttypes.BatchInfo{Submitter: e.User(6).Str, ChainType: ophosttypes.BatchInfo_CHAIN_TYPE_INITIA},
+		SubmissionInterval: 10 * 1e9, FinalizationPeriod: 100 * 1e9, SubmissionStartHeight: 1, Metadata: []byte("m")}
+	if !cfgOK {
+		cfg.SubmissionInterval = 0
+	}
+	real := opchildtypes.BridgeInfo{BridgeId: id, BridgeAddr: addr, L1ChainId: chain, L1ClientId: client, BridgeConfig: cfg}
+	return &BInfo{ID: id, Addr: addr, Chain: chain, Client: client, CfgOK: cfg.ValidateWithNoAddrValidation() == nil, Real: real}
+}
 
 // C06: L2 credits each L1 deposit exactly once, in order, under any relay schedule.
 // Streams: (a) exhaustive delivery schedules of bounded length over {seq-1, seq, seq+1} x
 // {executor A, executor B, stranger}, each on a cache branch of a base state;
-// (b) long random schedules interleaved with transfers, withdrawals and executor changes.
+// (b) long random schedules interleaved with transfers, withdrawals, executor changes, bridge-info
+// registrations (first / repeated / refused), validator add / remove and fee-pool spends;
+// (b') fixed scripts around the first SetBridgeInfo; (c) hook re-entrancy (monitor-only).
 
 type c06Monitor struct {
 	rep      *Report
@@ -29,6 +46,13 @@ func c06Check(rep *Report, c *L2Case, startNext uint64) {
 		res := obs.V[0]
 		nl1 := obs.V[1].(ON).V.Uint64()
 		stateNow := (OL{obs.V[1:7]}).Coq()
+		if o.Kind != "fdep" {
+			if _, ok := res.(OL); ok {
+				rep.Hist(o.Kind + ":OK")
+			} else {
+				rep.Hist(o.Kind + ":ERR")
+			}
+		}
 		if o.Kind == "fdep" {
 			kind := "ERR"
 			if l, ok := res.(OL); ok {
@@ -168,7 +192,7 @@ func genC06(seed uint64, tier string, outdir string) *Report {
 		for i := 0; i < randLen; i++ {
 			n1, _ := e.K.GetNextL1Sequence(e.Ctx)
 			var res ExecResult
-			switch r.Weighted([]int{60, 10, 10, 8, 4}) {
+			switch r.Weighted([]int{60, 10, 10, 8, 4, 7, 4, 4}) {
 			case 0: // deposit
 				var seq uint64
 				switch r.Weighted([]int{50, 25, 15, 5, 5}) {
@@ -222,6 +246,36 @@ func genC06(seed uint64, tier string, outdir string) *Report {
 				sc.register(ps.Admin, e.Auth)
 				inner := sc.Deposit(e.Auth, n1, e.User(4).Str, 0, big.NewInt(3), Hook{Kind: "none"})
 				c.Do(L2Op{Kind: "exec", Sender: ps.Admin, Inner: []L2Op{inner}})
+			case 5: // bridge info: first registration (after some deposits), repeats, incompatible ones, strangers
+				id, addr, chain, client, ok := sc.BridgeID, e.User(1).Str, "l1chain", "", true
+				switch r.Weighted([]int{60, 8, 8, 8, 8, 8}) {
+				case 1:
+					id++
+				case 2:
+					addr = e.User(2).Str
+				case 3:
+					chain = "otherchain"
+				case 4:
+					client = "07-tendermint-0"
+				case 5:
+					ok = false
+				}
+				sender := sc.SenderString(r.Weighted([]int{70, 5, 20, 0, 0, 5}))
+				sc.register(sender)
+				c.Do(L2Op{Kind: "setinfo", Sender: sender, Info: c06BInfo(e, id, addr, chain, client, ok)})
+			case 6: // validator add / remove by the authority (or somebody else)
+				auth := sc.SenderString(r.Weighted([]int{0, 0, 15, 85, 0, 0}))
+				sc.register(auth)
+				if r.Chance(60) {
+					c.Do(L2Op{Kind: "addval", Sender: auth, OpID: uint64(1 + r.Intn(4)), KeyID: uint64(1 + r.Intn(4))})
+				} else {
+					c.Do(L2Op{Kind: "rmval", Sender: auth, OpID: uint64(1 + r.Intn(4))})
+				}
+			case 7: // fee-pool spend
+				auth := sc.SenderString(r.Weighted([]int{0, 0, 15, 85, 0, 0}))
+				to := e.User(uint64(1 + r.Intn(6))).Str
+				sc.register(auth, to)
+				c.Do(L2Op{Kind: "spend", Sender: auth, To: to, Coins: []HookSend{{Denom: sc.Native, Amt: big.NewInt(int64(1 + r.Intn(200)))}}})
 			}
 		}
 		c06Check(rep, c, 1)
@@ -231,6 +285,41 @@ func genC06(seed uint64, tier string, outdir string) *Report {
 			rep.Sample(map[string]interface{}{"kind": "random schedule (first 12 ops)", "ops": opsCoq(c.Ops[:12])})
 		}
 		texts = append(texts, c.Coq())
+	}
+	// (b') fixed scripts: deposits 1..k, the FIRST SetBridgeInfo, every processed sequence
+	// delivered again (must all be no-ops), then k+1; with a second registration and a refused one
+	for k := 0; k <= 4; k++ {
+		for variant := 0; variant < 2; variant++ {
+			caseID++
+			sc := NewL2Scenario(seed*977+uint64(10*k+variant), caseID, false)
+			e, c := sc.Env, sc.Case
+			A, B := e.User(1).Str, e.User(2).Str
+			for q := 1; q <= k; q++ {
+				c.Do(sc.Deposit(A, uint64(q), e.User(4).Str, 0, big.NewInt(int64(10+q)), Hook{Kind: "none"}))
+			}
+			info := c06BInfo(e, sc.BridgeID, A, "l1chain", "", true)
+			if variant == 1 { // a stranger is refused first, then executor B registers
+				sc.register(e.User(5).Str)
+				c.Do(L2Op{Kind: "setinfo", Sender: e.User(5).Str, Info: info})
+				c.Do(L2Op{Kind: "setinfo", Sender: B, Info: info})
+			} else {
+				c.Do(L2Op{Kind: "setinfo", Sender: A, Info: info})
+			}
+			for q := 1; q <= k; q++ {
+				c.Do(sc.Deposit(B, uint64(q), e.User(5).Str, 0, big.NewInt(int64(10+q)), Hook{Kind: "none"}))
+			}
+			c.Do(sc.Deposit(A, uint64(k+1), e.User(4).Str, 0, big.NewInt(5), Hook{Kind: "none"}))
+			c.Do(L2Op{Kind: "setinfo", Sender: A, Info: info})                                                    // repeated registration
+			c.Do(L2Op{Kind: "setinfo", Sender: A, Info: c06BInfo(e, sc.BridgeID+1, A, "l1chain", "", true)}) // incompatible: refused
+			c.Do(sc.Deposit(A, uint64(k+1), e.User(4).Str, 0, big.NewInt(5), Hook{Kind: "none"}))             // no-op
+			c.Do(sc.Deposit(B, uint64(k+2), e.User(4).Str, 0, big.NewInt(6), Hook{Kind: "none"}))
+			c06Check(rep, c, 1)
+			c06EventCheck(rep, c)
+			rep.Ops += len(c.Ops)
+			rep.CountCase(strings.Join(opsCoq(c.Ops), "\n"), k > 0)
+			rep.Hist("script:first-bridge-info-after-deposits")
+			texts = append(texts, c.Coq())
+		}
 	}
 	c06Reentrancy(rep, seed, tier)
 	writeShards(outdir, "C06", l2CaseHeader, "run_l2case", "l2case", texts, 16, rep)
